@@ -50,7 +50,11 @@ EXPECTED_PROBES = ['roundtrip_local', 'roundtrip_network', 'multi_blob', 'exact_
 MAX_BLOB = 2 * 1024 * 1024
 TAMPERS = ['stream_name', 'key', 'suggested_file_name', 'blob_hash', 'blob_num', 'iv', 'length', 'swap', 'drop_terminator',
            'terminator_hash', 'terminator_length', 'truncate_json', 'not_json', 'stream_hash', 'drop_blob', 'dup_blob', 'json_list',
-           'missing_key', 'stream_hash_blank', 'stream_hash_blank_plus', 'stream_hash_other_valid', 'field_type']
+           'missing_key', 'stream_hash_blank', 'stream_hash_blank_plus', 'stream_hash_other_valid', 'field_type',
+           # structural inconsistencies with the stream hash RECOMPUTED over the altered content: numbering,
+           # terminator and zero-length clauses must hold on their own, not only through the stale hash
+           'renumber_rehash', 'renumber_terminator_rehash', 'terminator_hash_rehash', 'terminator_length_rehash',
+           'drop_terminator_rehash', 'zero_length_blob_rehash', 'swap_rehash', 'dup_blob_rehash']
 NAME_ALPHABET = ['a', 'B', '7', ' ', '.', '..', '\\', ':', '*', '?', '"', '<', '>', '|', '\x01', '\x1f', '\t', '\n', 'é', '漢', '🙂',
                  'CON', 'NUL', 'COM1', 'LPT9', '.txt', '.mp4', '-', '_', '%', '\x7f', '́']
 
@@ -175,6 +179,30 @@ def tamper(d, op, r):
         return r.choice([b'\x00\x01\x02 not json', b'{{{{', b'<html></html>', b'\xff\xfe\xfd'])
     elif what == 'stream_hash':
         d['stream_hash'] = flip_hex(d['stream_hash'])
+    elif what.endswith('_rehash'):
+        if what == 'renumber_rehash':
+            data[i]['blob_num'] = data[i]['blob_num'] + r.choice([1, 2, 7, -1])
+        elif what == 'renumber_terminator_rehash':
+            d['blobs'][-1]['blob_num'] = d['blobs'][-1]['blob_num'] + r.choice([1, 2, 41, -1])
+        elif what == 'terminator_hash_rehash':
+            d['blobs'][-1]['blob_hash'] = data[0]['blob_hash']
+        elif what == 'terminator_length_rehash':
+            d['blobs'][-1]['length'] = r.choice([16, 1, 2097152])
+            d['blobs'][-1]['blob_hash'] = data[0]['blob_hash']      # a non-zero length blob is hashed with its hash
+        elif what == 'drop_terminator_rehash':
+            d['blobs'] = d['blobs'][:-1]
+        elif what == 'zero_length_blob_rehash':
+            data[i]['length'] = 0
+        elif what == 'swap_rehash':
+            if len(data) < 2:
+                return None
+            d['blobs'][0], d['blobs'][1] = d['blobs'][1], d['blobs'][0]
+        elif what == 'dup_blob_rehash':
+            d['blobs'].insert(1, dict(d['blobs'][0]))
+        try:
+            d['stream_hash'] = ref_stream_hash(d)
+        except Exception:  # noqa
+            return None
     elif what in ('stream_hash_blank', 'stream_hash_blank_plus'):
         # a stream hash that is not a hash at all (empty / null / falsy / wrong type) is inconsistent too,
         # alone or together with one altered committed field
@@ -423,8 +451,9 @@ def execute(scenario, keep_trace=False):
                         run.probes['tamper_refused_' + type(e).__name__] += 1
                     run.ev('tamper', op['what'], type(e).__name__)
                 else:
-                    run.violation('C02.tampered_descriptor_accepted', f'a descriptor with `{op["what"]}` altered (stale stream '
-                                  f'hash) was loaded', what=op['what'])
+                    run.violation('C02.tampered_descriptor_accepted', f'a descriptor with `{op["what"]}` altered ('
+                                  f'{"stream hash recomputed" if op["what"].endswith("_rehash") else "stale stream hash"}) was loaded',
+                                  what=op['what'])
                     return
                 finally:
                     dl.stop()
